@@ -126,6 +126,18 @@ BridgeGenesis ==
      !.contracts = {[bk |-> 1, ck |-> 1, contract |-> "k1"]},
      !.origintx  = {[ck |-> 1, id |-> "x1", src |-> "polygon"]}]
 
+\* ... and a second, native batch (no contract) that a1 and a2 hold as well
+Bridge2Genesis ==
+  [BridgeGenesis EXCEPT
+     !.batches = @ \cup {[key |-> 2, issuer |-> "a1", pk |-> 1,
+                           denom |-> BatchDenomOf("C01-001", 5, 8, 2), meta |-> "m0",
+                           start |-> 5, end |-> 8, issued |-> 6, open |-> TRUE, ck |-> 0]},
+     !.bseq    = {[pk |-> 1, next |-> 3]},
+     !.bal     = @ \cup {[a |-> "a1", bk |-> 2, t |-> 2, r |-> 0, e |-> 0],
+                          [a |-> "a2", bk |-> 2, t |-> 1, r |-> 0, e |-> 0]},
+     !.supply  = @ \cup {[bk |-> 2, t |-> 3, r |-> 0, c |-> 0]},
+     !.seq     = [@ EXCEPT !.batch = 2]]
+
 \* params family: a class fee and a basket fee are set, the allowlist is off
 FeeGenesis ==
   [BatchGenesis EXCEPT
@@ -251,6 +263,7 @@ GenesisState ==
     [] Genesis = "basket2" -> Basket2Genesis
     [] Genesis = "basket3" -> Basket3Genesis
     [] Genesis = "bridge"  -> BridgeGenesis
+    [] Genesis = "bridge2" -> Bridge2Genesis
     [] Genesis = "fee"     -> FeeGenesis
     [] Genesis = "zerofee" -> ZeroFeeGenesis
     [] Genesis = "expiry"  -> ExpiryGenesis
@@ -379,14 +392,24 @@ Msgs(s, T) ==
               os \in Seqs12({[denom |-> d, qty |-> q, ask_denom |-> ad, ask_amt |-> p,
                                dar |-> dr, exp |-> x]
                               : d \in BatchDenoms(s), q \in Amts, ad \in Denoms \cup {"ufoo"},
-                                p \in Asks, dr \in BOOLEAN, x \in OptExp(s)})}
+                                p \in Asks, dr \in BOOLEAN, x \in OptExp(s)})
+                    \* a zero price, in single-entry lists only (pairs would square the domain)
+                    \cup Seqs1({[denom |-> d, qty |-> q, ask_denom |-> ad, ask_amt |-> 0,
+                                  dar |-> TRUE, exp |-> NoTime]
+                                 : d \in BatchDenoms(s), q \in Amts, ad \in Denoms})}
     [] T = "UpdateSellOrders" ->
          {[type |-> T, seller |-> a, updates |-> us]
             : a \in Users,
-              us \in Seqs1({[id |-> i, qty |-> q, ask_denom |-> ad, ask_amt |-> p,
+              us \in Seqs12({[id |-> i, qty |-> q, ask_denom |-> ad, ask_amt |-> p,
                               dar |-> dr, exp |-> x]
                               : i \in OrderIds(s), q \in Amts \ {0}, ad \in Denoms \cup {"ufoo"},
-                                p \in Asks, dr \in BOOLEAN, x \in OptExp(s)})}
+                                p \in Asks, dr \in BOOLEAN, x \in OptExp(s)})
+                    \* a zero quantity or a zero price, in single-entry lists only
+                    \cup Seqs1({e \in {[id |-> i, qty |-> q, ask_denom |-> ad, ask_amt |-> p,
+                                          dar |-> TRUE, exp |-> NoTime]
+                                         : i \in OrderIds(s), ad \in Denoms,
+                                           q \in Amts \cup {0}, p \in Asks \cup {0}}
+                                  : e.qty = 0 \/ e.ask_amt = 0})}
     [] T = "CancelSellOrder" ->
          {[type |-> T, seller |-> a, id |-> i] : a \in Users, i \in OrderIds(s)}
     [] T = "BuyDirect" ->
@@ -396,7 +419,10 @@ Msgs(s, T) ==
                                dar |-> dr,
                                maxfee |-> IF f < 0 THEN NoCoin ELSE SomeCoin(bd, f)]
                               : i \in OrderIds(s), q \in Amts \ {0}, bd \in Denoms, p \in Bids,
-                                dr \in BOOLEAN, f \in MaxFees \cup {-1}})}
+                                dr \in BOOLEAN, f \in MaxFees \cup {-1}})
+                    \* a zero quantity or a zero bid, in single-entry lists only
+                    \cup Seqs1({[id |-> i, qty |-> q, bid_denom |-> bd, bid_amt |-> p, dar |-> TRUE, maxfee |-> NoCoin]
+                                 : i \in OrderIds(s), bd \in Denoms, q \in {0, 1}, p \in Bids \cup {0}})}
     [] T = "AddAllowedDenom" ->
          {[type |-> T, authority |-> a, bank |-> d, display |-> d, exp |-> 6]
             : a \in Signers, d \in Denoms \cup {"ufoo"}}
